@@ -310,19 +310,24 @@ def mass_properties(
     if skip_inertia:
         return result
 
+    # shift the second moments from the origin to `center_mass`:
+    # int (x - c)_i (x - c)_j = S_ij - (c_i F_j + c_j F_i - V c_i c_j)
+    # which is the familiar `V c_i c_j` only if `c` is the centroid `F / V`
+    # and an overridden center of mass generally is not
+    center_mass = np.asanyarray(center_mass, dtype=np.float64)
+    first = integrated[1:4]
+    shift = (
+        np.outer(center_mass, first)
+        + np.outer(first, center_mass)
+        - volume * np.outer(center_mass, center_mass)
+    )
     inertia = np.zeros((3, 3))
-    inertia[0, 0] = (
-        integrated[5] + integrated[6] - (volume * (center_mass[[1, 2]] ** 2).sum())
-    )
-    inertia[1, 1] = (
-        integrated[4] + integrated[6] - (volume * (center_mass[[0, 2]] ** 2).sum())
-    )
-    inertia[2, 2] = (
-        integrated[4] + integrated[5] - (volume * (center_mass[[0, 1]] ** 2).sum())
-    )
-    inertia[0, 1] = -(integrated[7] - (volume * np.prod(center_mass[[0, 1]])))
-    inertia[1, 2] = -(integrated[8] - (volume * np.prod(center_mass[[1, 2]])))
-    inertia[0, 2] = -(integrated[9] - (volume * np.prod(center_mass[[0, 2]])))
+    inertia[0, 0] = integrated[5] + integrated[6] - (shift[1, 1] + shift[2, 2])
+    inertia[1, 1] = integrated[4] + integrated[6] - (shift[0, 0] + shift[2, 2])
+    inertia[2, 2] = integrated[4] + integrated[5] - (shift[0, 0] + shift[1, 1])
+    inertia[0, 1] = -(integrated[7] - shift[0, 1])
+    inertia[1, 2] = -(integrated[8] - shift[1, 2])
+    inertia[0, 2] = -(integrated[9] - shift[0, 2])
     inertia[2, 0] = inertia[0, 2]
     inertia[2, 1] = inertia[1, 2]
     inertia[1, 0] = inertia[0, 1]
